@@ -13,9 +13,11 @@
   * layer 3 in part: `circle_rt`, `spinner_rt`, `hold_rt` (one line, any decoder state); layer 4 in part:
     `samples_bank_info_rt` (`get_sample_bank` against `read_custom_sample_banks`) and `samples_rt` (names and banks of a
     sample list in the decoder's shape come back through `convert_sound_type`).
-  Still only statements (evaluated by the `rt` oracle and the three-way `rt` correspondence): sliders (path string, node
-  samples), timing points (layer 5 of DESIGN 5.2),
-  the map-level assembly over all objects, and hence the full `roundtrip_statement`.
+  Sliders (path string, node samples, the whole line, and the `[HitObjects]` block of representable objects) are in
+  Props/C02Slider.lean (`path_string_roundtrip`, `slider_rt`, `slider_rt_exact`, `node_samples_rt`, `hitobjects_block_rt`).
+  Still only statements (evaluated by the `rt` oracle and the three-way `rt` correspondence): timing points (layer 5 of
+  DESIGN 5.2), that every object of a decoded map is representable, the map-level processing, and hence the full
+  `roundtrip_statement`.
 -/
 import RosuModel.Model.Encode
 import RosuModel.Props.C11
